@@ -244,4 +244,26 @@ theorem truthy_abs (v : Value) (h : Scalar v = true) : Spec.Eval.truthy (absV v)
   | int i => simp only [absV, Spec.Eval.truthy, Value.truthy, bne, toInt_eq_zero]
   | _ => simp [absV, Spec.Eval.truthy, Value.truthy]
 
+/-- int → float conversion is order-exact on the integers of magnitude ≤ 2^53 -/
+def OrdExact : Prop := ∀ x y : Int, Spec.Eval.small x = true → Spec.Eval.small y = true →
+  F64.lt (F64.ofInt x) (F64.ofInt y) = decide (x < y) ∧ F64.le (F64.ofInt x) (F64.ofInt y) = decide (x ≤ y)
+
+theorem cmp_refines (hx : OrdExact) (op : BinOp) (hop : op = .lt ∨ op = .le ∨ op = .gt ∨ op = .ge)
+    (a b : Value) (ha : Scalar a = true) (hb : Scalar b = true) : ArithSpec op a b := by
+  rcases hop with rfl | rfl | rfl | rfl <;> cases a <;> cases b <;>
+    simp_all [ArithSpec, Scalar, absV, Spec.Eval.binop, Spec.Eval.compareV, arith, Spec.Eval.toF, toFloat, F64.ofInt64]
+  all_goals (refine ⟨fun v hv => ?_, fun h => ?_⟩)
+  all_goals first
+    | (split at h <;> simp at h)
+    | (split at hv
+       · rename_i hs
+         simp only [Out.val.injEq] at hv
+         first
+           | (rw [← hv, (hx _ _ hs.1 hs.2).1])
+           | (rw [← hv, (hx _ _ hs.1 hs.2).2])
+           | (rw [← hv, (hx _ _ hs.2 hs.1).1])
+           | (rw [← hv, (hx _ _ hs.2 hs.1).2])
+           | exact hv
+       · simp at hv)
+
 end SoyVerif.Refine
